@@ -19,6 +19,10 @@ package c17
 // as "for every script, every interleaving", but shares prefixes. The well-behavedness assumptions of the property
 // restrict which items / finalised heights are *enabled*; they never weaken the oracle (see enabled()).
 //
+// This BFS reads the stored head only between the client's steps and on the Blockchain object that wrote it. Reads
+// that OVERLAP a commit (RPC handlers call Blockchain.L1Head() at any time), on a process that started on a database
+// already holding a head, are part R (reader_test.go); the eth_getLogs adapter is adapter_test.go.
+//
 // Replays are executed by GOMAXPROCS=1 worker processes (pool_test.go); the BFS, the visited set and all verdicts
 // live in the parent. Development aids: VERIF_C17_N, VERIF_C17_SELFCHECK_N, VERIF_C17_FULLKEY, VERIF_C17_TRACE,
 // VERIF_C17_PROF, VERIF_C17_WORKERS.
@@ -1505,6 +1509,9 @@ func TestCheck(t *testing.T) {
 		defer pprof.StopCPUProfile()
 	}
 	adapterSweep(r)
+	if os.Getenv("VERIF_C17_NO_READER") == "" {
+		readerSweep(r) // part R (reader_test.go): the head read while it is committed, over process lifetimes
+	}
 	ex := explore(t, r, pl, n, os.Getenv("VERIF_C17_FULLKEY") != "", true)
 	pprof.StopCPUProfile()
 	pl.close()
